@@ -29,8 +29,8 @@ func rawtext(s string, trimBefore, trimAfter bool) []byte {
 	var (
 		spaces         = 0
 		seenNewline    = trimBefore
-		lastChar       rune
-		charBeforeTrim rune
+		lastChar       rune = noChar
+		charBeforeTrim rune = noChar
 		result         = make([]byte, len(s))
 		resultLen      = 0
 	)
@@ -100,9 +100,13 @@ func rawtext(s string, trimBefore, trimAfter bool) []byte {
 	}
 }
 
+// noChar stands for the character before the first one of a text run.
+// (It is not 0: a NUL in the text is a character like any other.)
+const noChar rune = -1
+
 func isTightJoiner(r rune) bool {
 	switch r {
-	case 0, '<', '>':
+	case noChar, '<', '>':
 		return true
 	}
 	return false
